@@ -123,7 +123,11 @@ func streamDrv(c *ctx) {
 	// ("long" = a valid reply with 1 trailing byte, "long64" = with 64: a reader whose buffer is
 	// exactly 64 bytes would see either as a valid reply)
 	for _, path := range []string{"broadcast", "udp", "tcp"} {
-		for _, cl := range append([]string{"long64"}, dgClasses...) {
+		classes := append([]string{"long64"}, dgClasses...)
+		if path != "tcp" {
+			classes = append(classes, "empty") // a zero-length datagram (UDP only: an empty TCP write sends nothing)
+		}
+		for _, cl := range classes {
 			jobs = append(jobs, job{path, 0, []arrival{{8, cl}}, "none", r.U64()})
 			jobs = append(jobs, job{path, 0, []arrival{{8, cl}, {30, "valid"}}, "none", r.U64()})
 		}
